@@ -60,19 +60,23 @@ MANIFEST_META = {
              '(request width AND height); ImageTransformer._transform_simple takes exactly the affine image of the requested bbox '
              'out of the source image (EXTENT quad; crop shortcut only if x AND y resolution match the source, rounded to whole '
              'pixels, output size wide); WMSSource._get_transformed reprojects back exactly the (srs, bbox) it asked upstream.',
-        note='resampling and reprojection error budgets (transform_meshes, PIL, proj), axis-order switching, _query_req and the '
-             'ImageTransformer dispatch (_no_transformation_needed) are not yet under contract; floats as reals; end-to-end WSGI '
-             'pixels are outside'),
+        note='also under contract: ImageTransformer.transform dispatch / _no_transformation_needed, TiledImage and TileMerger.merge '
+             'georeference, CacheMapLayer._image mosaic, WMSServer.featureinfo (query built from bbox/size/pos of the request, every '
+             'answer collected); resampling and reprojection error budgets (transform_meshes, PIL, proj) and axis-order switching '
+             'are outside; floats as reals; end-to-end WSGI pixels are outside'),
     'C18': dict(
         text='Narrow slice, proved on the real code: in XML/OWS exception handlers the template variable `exception` is exactly '
              'html.escape(request_error.msg) and the response body is the rendered template; PlainExceptionHandler (raw message) '
              'always answers text/plain; in MapProxyApp.__call__ (non-debug) any exception from a service handler becomes the '
              'constant \'internal error\'/500 body, unknown paths get \'not found\'/404/text/plain, and the welcome link is built '
-             'only from escape_html(script_url). escape_html\'s character-level postcondition is a BOUNDED check (replace chains '
-             'are undecided in z3 and cvc5).',
+             'only from escape_html(script_url); a request whose first path segment names a configured service is handled by that '
+             'service and its answer is sent unchanged; Server.handle turns every RequestError of parser or handler into e.render(); '
+             'RequestError.render delegates to the handler of the request, sends the raw message only with the default text/plain '
+             'type, and marks every error answer not cacheable. escape_html\'s character-level postcondition is a BOUNDED check '
+             '(replace chains are undecided in z3 and cvc5).',
         note='the universal claim "returns a complete response without raising for any request whatsoever" (whole-program '
              'exception freedom across dynamic dispatch, templates, PIL decoders), image decodability, XML well-formedness of '
-             'rendered templates, Response.__call__ Content-length and Server.handle are NOT covered'),
+             'rendered templates and Response.__call__ Content-length are NOT covered'),
     'C09': dict(
         text='Proof that the paths built from numbers stay below their root: compact bundle file = cache_dir/L<z>/R<r>C<c> (two '
              'safe segments, string lemma), lock file = lock_dir/<cache id>-x-y-z.lck (one segment; injective for non-negative '
@@ -99,8 +103,9 @@ MANIFEST_META = {
              '(digit-group and path-segment lemmas + A-fmt).',
         note='the file-object model (read-over-write, disjoint frames, struct little-endian) is a trusted stub; the composed '
              'statement "equal paths => equal addresses" is assembled from proved lemmas by hand (the single SMT query stays '
-             'unknown); quadkey layout only bounded (C09); sqlite / geopackage backends (suspects S1, S2) are not yet under '
-             'contract; redis/s3/azure/couchdb are outside'),
+             'unknown); quadkey layout only bounded (C09); sqlite / geopackage backends: level dispatch, bulk load (parameter list = '
+             'wanted addresses, chunks of whole triples within the SQLite limit, rows matched by (column, row, level)) are under '
+             'contract - defects S1, S2 found there and repaired; the SQL text itself and redis/s3/azure/couchdb are outside'),
     'C06': dict(
         text='Proof of crash conditions in the file model: after EVERY write inside compact v2 _store_tile (including a torn '
              'payload write of any length) every slot is either unchanged (entry, record bytes, size field, in-file) or - the '
@@ -111,7 +116,8 @@ MANIFEST_META = {
              'record has left the process write buffer (seek/flush) before append_tile returns, and BundleV1.store_tiles '
              'publishes the index entry only afterwards, with the offset append_tile returned.',
         note='crash model = process death; writes of <= 8 bytes are atomic (index entry); OS-level durability/fsync, NFS, '
-             'sqlite journaling, legend cache and seed progress file are outside; the v1 cross-file argument (index vs data '
+             'sqlite journaling are outside; legend cache and seed progress file: written only through write_atomic (whole '
+             'payload after seek(0)); the v1 cross-file argument (index vs data '
              'file) is a composition of the two contracts, not one mechanised obligation'),
     'C19': dict(
         text='Proof that the v2 representation invariant (every index entry empty or pointing at a complete in-file record above '
@@ -119,8 +125,9 @@ MANIFEST_META = {
              '(induction over operations); defragmentation copies, for each of the 128 rows, all 128 addresses (0..127, y) from '
              'the old bundle and stores those found into the new one; v1 bulk load visits every tile (no early return).',
         note='file model trusted; v1 index/data functions are under contract (C05) but the v1 invariant is not stated as one '
-             'predicate; size() accounting, the rename/swap step and glob are outside; '
-             'the defrag loop invariant is per-row (rows < y copied) with the swap assumed'),
+             'predicate; size() accounting is outside; the swap step (old files removed, temporary bundle renamed into the old '
+             'name, only when tiles were copied), the identification of old/new bundle and the glob pattern are under contract; '
+             'the defrag loop invariant is per-row (rows < y copied)'),
     'C12': dict(
         text='Proof on the real cleanup code (every iteration of the walks, all inputs): cleanup_directory hands a file to the '
              'remove handler iff remove_all or lstat(path).st_mtime < before_timestamp (strict, the file\'s own mtime, links not '
@@ -131,8 +138,8 @@ MANIFEST_META = {
              'location_funcs(layout) is a path prefix of every tile location of that level (so the level-wise cleanup looks '
              'where the tiles are).',
         note='defect S4 (tms level directory) was found by this obligation and repaired in /repo 73f95f4; SQL deletes of the '
-             'sqlite backends, real file-system time stamps and shutil.rmtree are outside; strategy choice in cleanup() not '
-             'yet under contract; the dimension sub-path is assumed free of leading/trailing "/" (bounded check of '
+             'sqlite backends, real file-system time stamps and shutil.rmtree are outside; strategy choice in cleanup() is under '
+             'contract (coverage-blind strategies only for complete extents and only with a cache offering the operation); the dimension sub-path is assumed free of leading/trailing "/" (bounded check of '
              'dimensions_part)'),
     'C11': dict(
         text='Proof on the real seeder code: SeedProgress.can_skip is exactly "current is behind old" for progress paths of '
@@ -154,8 +161,8 @@ MANIFEST_META = {
              'queues exactly one result per task, carrying the task\'s own id, BEFORE task_done(); the sequential branch '
              'yields one result per item and re-raises in raise mode.',
         note='queue and thread timing are assumed (FIFO queue stubs, no scheduling explored); termination/liveness of the '
-             'empty() polling and the two-pass composition in map_each (pooled branch), _fetch_results, _result_iter and '
-             'shutdown are not yet under contract; defect S13 (size-1 pool swallowed exceptions) found and repaired'),
+             'empty() polling, _fetch_results and shutdown are not under contract (map_each pooled branch, starmap, _single_call, '
+             '_result_iter are); defects S13, S14 (size-1 pool swallowed exceptions) found and repaired'),
     'C10': dict(
         text='Proof of the authorization decision logic and call-site conditions on the real code: tile services '
              '(TMS/WMTS/KML authorize_tile_layer) return normally only without a callback, for \'full\', or for '
@@ -169,19 +176,28 @@ MANIFEST_META = {
              'apply decision -> filter -> render in that order, map gives the merger the decision\'s coverage with the bbox and '
              'size of the query that was rendered, featureinfo and LimitedLayer.get_info ask a layer only if the limit '
              'contains (query.coord, query.srs); GeomCoverage tests the shape built from the coordinates transformed into its '
-             'own SRS.',
+             'own SRS; the callback is asked about wms.<feature>, unauthenticated never returns normally, per-layer permissions count '
+             'only for partial and default to False; WMS capabilities: the complete layer tree is advertised only without a callback '
+             'or for full, otherwise through FilteredRootLayer, whose layer_permitted / layers / queryable advertise a named layer '
+             'only with its map (featureinfo) permission and inside its limits.',
         note='pixel clipping (image.mask, shapely, PIL) and the reprojection arithmetic of the limiting geometry are outside; '
-             'opaque-callee assumption; the callback result is an opaque mapping; capabilities filtering '
-             '(authorized_capability_layers, FilteredRootLayer) not yet under contract'),
+             'opaque-callee assumption; the callback result is an opaque mapping; the capabilities TEMPLATES (what is printed for '
+             'an advertised layer) and FilteredRootLayer.extent are outside'),
     'C14': dict(
         text='Proof that the shortcut guards imply "shortcut = full composition" at the level of operation selection: the '
              'single-layer fast path of LayerMerger.merge is taken only for one layer of the requested size without clip, '
              'without request-wide coverage, opaque or transparent output, and WITHOUT an opacity < 1; the loop composites '
              'each layer once, bottom to top; WMSSource.is_opaque implies no transparency, full opacity, inside coverage and '
              'resolution range; _is_compatible allows combining upstream requests only without opacities and with equal SRS, '
-             'formats, colour key, coverage and forwarded dimensions.',
-        note='pixel arithmetic (PIL alpha_composite/blend/paste) is an algebra of opaque symbols; WMSServer.map pruning loop '
-             'and combined_layers ordering not yet under contract; defects S6 (opacity 0 counted opaque) and S7 (single '
+             'formats, colour key, coverage and forwarded dimensions; each layer image goes OVER the result so far (destination first, '
+             'source second) with a transparency-aware operation (alpha_composite / masked paste for RGBA and palette images, colour '
+             'keys converted to alpha first), the returned image is the composition (masked on a fresh background for a request-wide '
+             'limit) and cacheable only if every layer is; request combination: combined_client concatenates the layer lists in '
+             'drawing order on a COPY of the template, combined_layer/combined_layers merge only adjacent compatible layers and keep '
+             'the order; LayerRenderer adds every successful layer once, in order, with its own opacity and coverage; WMSServer.map '
+             'prunes only below an opaque layer that renders the query.',
+        note='pixel arithmetic (PIL alpha_composite/blend/paste) is an algebra of opaque symbols: the proof is about WHICH operation is '
+             'applied to WHICH operands in WHICH order, not about pixel values; defects S6 (opacity 0 counted opaque) and S7 (single '
              'layer ignores opacity) were found by this check and repaired in /repo (089f0af, 82bd189)'),
     'C17': dict(
         text='Proof of call-site preconditions on the real WMSSource code (all paths, all inputs): at every '
@@ -192,9 +208,11 @@ MANIFEST_META = {
              'ResolutionRange.contains is exactly "x AND y resolution below min_res (+1e-6) and not below max_res"; '
              '_get_transformed sends upstream the query built from best_srs and the transformed bbox (directly or clipped); '
              'MapQuery.dimensions_for_params returns exactly the dimensions whose lower-cased name is a configured parameter '
-             '(proof + bounded twin).',
+             '(proof + bounded twin); WMSClient._query_req copies the template and sets bbox/size/srs code/format of the query plus '
+             'exactly the forwarded dimensions; TiledSource.get_map refuses sizes/resolutions the grid does not have; WMSSource.get_map '
+             'declares a request blank only outside its coverage/resolution range and applies colour key and opacity of the source.',
         note='SRS equality is treated as identity of opaque objects; URL assembly, reprojected bbox accuracy, '
-             'best_srs/preferred_src, WMSClient._query_req and TiledSource are not yet under contract; opaque-callee '
+             'best_srs/preferred_src and WMSClient.retrieve (URL text) are not under contract; opaque-callee '
              'assumption'),
     'C20': dict(
         text='Proof on the real code: Response.make_conditional answers 304 (no body, no Content-type) when If-None-Match '
@@ -202,9 +220,11 @@ MANIFEST_META = {
              'If-Modified-Since (an absent ETag never matches an absent header; a malformed date never gives 304); '
              'cache_headers builds validators from (timestamp, size) only and emits the no-store directives on request; in '
              'TMS, WMTS and KML handlers an uncacheable tile is always sent with cache_headers(no_cache=True) and '
-             'validators come from the rendered tile; HTTP dates are read as GMT; file-cache metadata comes from lstat.',
-        note='md5 and date formatting/parsing are uninterpreted functions; headers are a str->str map; the WMS-C path and '
-             'tile_buffer are not yet under contract; defect S8 (WMTS/KML ignored tile.cacheable) was found by this check '
+             'validators come from the rendered tile; HTTP dates are read as GMT (two-digit years as 20xx, unparseable dates as None); '
+             'file-cache metadata comes from lstat; tile answers are built from the rendered tile and made conditional on the headers '
+             'of that request; WMS-C (tiled=true) answers get validators and a conditional answer exactly when the image carries the '
+             'CacheInfo of a cached tile, uncacheable WMS answers get no-cache headers; error documents are never cacheable.',
+        note='md5 and date formatting/parsing are uninterpreted functions; headers are a str->str map; tile_buffer is not under contract; defect S8 (WMTS/KML ignored tile.cacheable) was found by this check '
              'and repaired in /repo commit 4acc6c2'),
     'C02': dict(
         text='Proof on the real code of the address arithmetic between the advertised description objects and the served '
@@ -213,8 +233,9 @@ MANIFEST_META = {
              'rectangle when supports_access_with_origin offers it, origin_tile, and for every WMTS TileMatrix: identifier = '
              'level name, matrix size = grid size, ScaleDenominator <-> resolution, TopLeftCorner = north-west corner of the '
              'tile block; lemmas compose these to "client rectangle = served rectangle".',
-        note='also under contract: wmts.meter_per_unit (degrees only for geographic SRS) and KMLServer._get_subtiles (the advertised '
-             'sub-tile rectangle is the full tile_bbox of the tile that is served); the XML templates (TMS Origin/BoundingBox, '
+        note='also under contract: wmts.meter_per_unit (degrees only for geographic SRS), KMLServer._get_subtiles (children = tiles of '
+             'level z+1 in the rectangle of the parent, advertised iff the lower-left corner lies inside it, with the full tile_bbox and '
+             'the external address of that very tile, y-flipped for non-lower-left origins) and the origin handling of the TMS/KML handlers; the XML templates (TMS Origin/BoundingBox, '
              'WMS-C TileSet) and KML link generation are outside; the composition '
              'lemmas restate contract clauses by hand; floats as reals; known finding S9 (WMTS on sqrt2 grids)'),
     'C16': dict(
@@ -236,7 +257,8 @@ MANIFEST_META = {
              '(lemmas pattern_placement_x/y extend this to every entry). Trace conditions on '
              'TileCreator._create_meta_tile: one upstream request per meta tile, split tiles stored under the lock.',
         note='floats as reals; PIL crop/paste pixel semantics and the upstream being position-determined are outside; '
-             'TileSplitter.get_tile / split_meta_tiles / minimal_meta_tile / bulk creation not yet under contract; '
+             'TileSplitter.get_tile, split_meta_tiles, minimal_meta_tile, bulk creation and TileManager._load_tile_coords (every missing tile '
+             'goes to the creator, created tiles are delivered, rescaled stand-ins only when nothing was created) are under contract; '
              'opaque-callee assumption for trace conditions (an opaque callee does not itself perform the guarded event)'),
     'C08': dict(
         text='Proof of the per-thread protocol obligations on the real TileCreator code (all paths, all inputs): the lock '
@@ -245,7 +267,7 @@ MANIFEST_META = {
              'upstream request per invocation, results stored before the lock is released. The interleaving conclusion '
              '(one fetch per meta tile across threads) is a pen-and-paper lemma conditional on lock exclusivity (C07).',
         note='no interleavings are explored (exclusivity of FileLock is assumed, C07 not applicable); opaque-callee '
-             'assumption; _create_bulk_meta_tile and lock file naming not yet under contract'),
+             'assumption; _create_bulk_meta_tile is under contract, lock file naming under C09'),
     'C13': dict(
         text='Proof on the real TileManager code: is_cached is the backend answer restricted by the threshold (stale at '
              'or before the threshold, fresh after it -- outside known finding S10), is_stale <=> exists and not fresh, '
